@@ -406,7 +406,9 @@ static std::string cache_key()
     ents.push_back(e);
   }
   std::sort(ents.begin(), ents.end());
-  std::string k;
+  // every backend member the named-args path reads belongs to the key, also the scratch lookup string: it is
+  // overwritten before every use today, but leaving it out would merge states if that ever stopped being true
+  std::string k = "scratch=" + bw->_named_args_format_template + "|";
   for (auto const& e : ents) k += e + "|";
   return k;
 }
